@@ -12,7 +12,7 @@ RULE = ("every undirected graph on n <= 5 (thorough 6) labelled nodes, as a symm
         "linkage at t with the components of the max_edits=t neighbour graph; non-trivial = at least one edge")
 ASSUMPTIONS = ["SciPy linkage/fcluster and igraph community detection are the trusted base named by the property; community variants are only required to stay inside connected components",
                "rapidfuzz cdist workers=-1 answered with one thread"]
-REQUIRED_CLASSES = {"all": ["empty-neighbour-list", "isolated-node", "distance-0-edge", "float-distances", "string-labels", "series-labels", "tcr-table", "single-linkage-identity", "repeated-node-labels", "empty-linkage_kws"]}
+REQUIRED_CLASSES = {"all": ["empty-neighbour-list", "isolated-node", "distance-0-edge", "float-distances", "string-labels", "series-labels", "tcr-table", "single-linkage-identity", "repeated-node-labels", "empty-linkage_kws", "self-matches-in-neighbour-list"]}
 MIN_OUTCOMES = 10
 SINGLE_THREAD_RAPIDFUZZ = True
 METHODS = ("cc", "fastgreedy", "multilevel", "leiden")
@@ -143,8 +143,12 @@ def check_case(case, acc):
             "symmetric": [(i, j, 1) for i, j in edges] + [(j, i, 1) for i, j in edges],
             "one-orientation": [(j, i, 2) for i, j in edges],
             "distance-0": [(i, j, 0) for i, j in edges] + [(j, i, 0) for i, j in edges],
+            # a collection searched against itself (seqs2=seqs) reports every (i, i, 0) as well
+            "with-self-matches": [(i, i, 0) for i in range(n)] + [(i, j, 1) for i, j in edges] + [(j, i, 1) for i, j in edges],
         }
         for fname, trip in forms.items():
+            if fname == "with-self-matches":
+                acc.cls("self-matches-in-neighbour-list")
             if fname == "distance-0" and trip:
                 acc.cls("distance-0-edge")
             if not _check_clustering(acc, ("graph1", n, mask, fname), trip, n, edges, "empty-list" if not trip else fname):
@@ -153,7 +157,8 @@ def check_case(case, acc):
         _, n, mask, fname = case
         pairs = list(itertools.combinations(range(n), 2))
         edges = [p for b, p in enumerate(pairs) if mask >> b & 1]
-        trip = {"symmetric": [(i, j, 1) for i, j in edges] + [(j, i, 1) for i, j in edges],
+        trip = {"with-self-matches": [(i, i, 0) for i in range(n)] + [(i, j, 1) for i, j in edges] + [(j, i, 1) for i, j in edges],
+                "symmetric": [(i, j, 1) for i, j in edges] + [(j, i, 1) for i, j in edges],
                 "one-orientation": [(j, i, 2) for i, j in edges],
                 "distance-0": [(i, j, 0) for i, j in edges] + [(j, i, 0) for i, j in edges]}[fname]
         _check_clustering(acc, case, trip, n, edges, "empty-list" if not trip else fname)
@@ -239,7 +244,9 @@ def check_case(case, acc):
         db = np.array([ref_lev(B[i], B[j]) for i in range(n) for j in range(i + 1, n)], dtype=float)
         variants = {"alpha": (pd.DataFrame({"CDR3A": A}), da), "beta": (pd.DataFrame({"CDR3B": B}, index=range(5, 5 + n)), db),
                     "both": (pd.DataFrame({"TRBV": ["TRBV2*01"] * n, "CDR3B": B, "CDR3A": A}, index=range(5, 5 + n)), da + db),
-                    "legacy-tuple": ((A, B), da + db)}
+                    "legacy-tuple": ((A, B), da + db),
+                    # the two chains as Series taken from differently indexed tables: pairing is by position
+                    "legacy-tuple-of-series": ((pd.Series(A, index=range(n)), pd.Series(B, index=range(n - 1, -1, -1))), da + db)}
         for name, (inp, dist) in variants.items():
             for method, t in (("single", 1), ("average", 2), ("complete", 1)):
                 lk = dict(method=method, optimal_ordering=True)
